@@ -34,7 +34,7 @@ func (SumtreeEngine) Describe() simcore.Description {
 	return simcore.Description{
 		Real: []string{"osmoutils/sumtree (Tree, ptr, Node: Set/Increase/Decrease/Remove/Clear, Get, PrefixSum, SubsetAccumulation, SplitAcc, TotalAccumulatedValue, Iterator, ReverseIterator)", "cosmossdk.io/store cachekv + dbadapter over cosmos-db MemDB"},
 		Stub: []string{"IAVL / gas-metered store: replaced by a counting store that aborts an operation at a seeded store access"},
-		Rule: "one run = one tree (fan-out drawn per run) driven by a seeded sequence of set/increase/decrease/remove/clear over an adversarial key alphabet, each in its own store transaction, with seeded aborts (panic at the k-th store access, or roll-back after success); after every step all queries over the whole alphabet and the tree's stored structure are compared with a sorted map.",
+		Rule: "one run = one tree (fan-out drawn per run) driven by a seeded sequence of set/increase/decrease/remove/clear over an adversarial key alphabet (every 16th run instead a wide-node configuration: fan-out 64..255 with bulk inserts/removals of up to 700 dense keys so that nodes of the largest capacity fill, split and merge), each in its own store transaction, with seeded aborts (panic at the k-th store access, or roll-back after success); after every step all queries over the whole alphabet and the tree's stored structure are compared with a sorted map.",
 		Assumptions: []string{
 			"the tree is obtained through NewTree, whose documented behaviour is to create the empty-key leaf with value 0 when it is missing; the reference map does the same",
 			"subset sums are only queried for start <= end",
@@ -56,8 +56,88 @@ var sumtreeKeys = func() [][]byte {
 	return ks
 }()
 
+// sumtreeKey maps a step argument to a key: small values index the alphabet, values from 1000 up name the
+// dense run of 3-byte keys used by the wide-node configurations (enough distinct keys to overflow a node of
+// any capacity the uint8 fan-out allows).
+func sumtreeKey(arg int64) []byte {
+	if arg >= 1000 {
+		i := arg - 1000
+		return []byte{'w', byte(i >> 8), byte(i)}
+	}
+	if arg < 0 {
+		arg = -arg
+	}
+	return sumtreeKeys[int(arg)%len(sumtreeKeys)]
+}
+
+// generateWide is the wide-node configuration: a fan-out near the top of the uint8 range and enough keys,
+// inserted in bulk, to fill and split such nodes; then ordinary operations and bulk removals on top.
+func generateWide(r *simcore.RNG, tier string, p *simcore.Plan) *simcore.Plan {
+	ms := []int64{64, 100, 127, 128, 129, 200, 254, 255}
+	m := ms[r.Intn(len(ms))]
+	p.Config["m"] = m
+	p.Config["wide"] = 1
+	p.Config["fresh"] = int64(r.Intn(2))
+	var count int64
+	switch r.Intn(4) {
+	case 0:
+		count = m + r.Range(-3, 3)
+	case 1:
+		count = 2*m + r.Range(-3, 3)
+	case 2:
+		count = r.Range(m, 3*m)
+	default:
+		count = r.Range(m/2, m+m/2)
+	}
+	if count > 700 {
+		count = 700
+	}
+	stride := int64(1)
+	if r.Chance(0.3) {
+		stride = r.Range(2, 5)
+	}
+	amt := r.Range(1, 1000000)
+	p.Steps = append(p.Steps, simcore.Step{Op: "bulk", A: []int64{0, count, stride}, S: []string{fmt.Sprint(amt)}})
+	n := int(r.Range(3, 30))
+	for i := 0; i < n; i++ {
+		st := simcore.Step{}
+		k := 1000 + r.Range(0, count*stride+4)
+		if r.Chance(0.2) {
+			k = int64(r.Intn(len(sumtreeKeys)))
+		}
+		a := big.NewInt(r.Range(0, 1000000))
+		switch r.Weighted([]int{30, 15, 10, 25, 10, 10}) {
+		case 0:
+			st = simcore.Step{Op: "set", A: []int64{k}}
+		case 1:
+			st = simcore.Step{Op: "inc", A: []int64{k}}
+		case 2:
+			st = simcore.Step{Op: "dec", A: []int64{k}}
+		case 3:
+			st = simcore.Step{Op: "rm", A: []int64{k}}
+		case 4:
+			st = simcore.Step{Op: "bulk", A: []int64{r.Range(0, count*stride), r.Range(1, m+3), r.Range(1, 3)}}
+		case 5:
+			st = simcore.Step{Op: "bulkrm", A: []int64{r.Range(0, count*stride), r.Range(1, m+3), r.Range(1, 3)}}
+		}
+		st.S = []string{a.String()}
+		if r.Chance(0.1) {
+			if r.Chance(0.3) {
+				st.F = "abort"
+			} else {
+				st.F = fmt.Sprintf("oog:%d", r.Range(1, 400))
+			}
+		}
+		p.Steps = append(p.Steps, st)
+	}
+	return p
+}
+
 func (SumtreeEngine) Generate(r *simcore.RNG, tier string, idx int) *simcore.Plan {
 	p := &simcore.Plan{Config: map[string]int64{}}
+	if idx%16 == 15 {
+		return generateWide(r, tier, p)
+	}
 	ms := []int64{2, 3, 4, 5, 8, 16, 32, 255}
 	p.Config["m"] = ms[r.Intn(len(ms))]
 	if r.Chance(0.5) {
@@ -157,10 +237,34 @@ func (SumtreeEngine) Execute(run *simcore.Run) {
 
 	for i, st := range p.Steps {
 		run.StepIdx = i
-		key := sumtreeKeys[int(st.Arg(0))%len(sumtreeKeys)]
+		key := sumtreeKey(st.Arg(0))
 		amt, _ := new(big.Int).SetString(st.Str(0), 10)
 		if amt == nil {
 			amt = big.NewInt(1)
+		}
+		type bulkKV struct {
+			k []byte
+			v *big.Int
+		}
+		var bulk []bulkKV
+		if st.Op == "bulk" || st.Op == "bulkrm" {
+			cnt, stride := st.Arg(1), st.Arg(2)
+			if cnt < 0 {
+				cnt = -cnt
+			}
+			if cnt > 800 {
+				cnt = 800
+			}
+			if stride < 1 {
+				stride = 1
+			}
+			start := st.Arg(0)
+			if start < 0 {
+				start = -start
+			}
+			for j := int64(0); j < cnt; j++ {
+				bulk = append(bulk, bulkKV{sumtreeKey(1000 + (start+j*stride)%60000), new(big.Int).Add(amt, big.NewInt(j))})
+			}
 		}
 		fk, fn := simcore.ParseFault(st.F)
 		before := Digest(base)
@@ -179,6 +283,14 @@ func (SumtreeEngine) Execute(run *simcore.Run) {
 				t.Remove(key)
 			case "clear":
 				t.Clear()
+			case "bulk", "bulkrm":
+				for _, bk := range bulk {
+					if st.Op == "bulk" {
+						t.Set(bk.k, osmomath.NewIntFromBigInt(bk.v))
+					} else {
+						t.Remove(bk.k)
+					}
+				}
 			}
 			return nil
 		})
@@ -217,6 +329,14 @@ func (SumtreeEngine) Execute(run *simcore.Run) {
 					run.Probe("sentinel-removed")
 				}
 				delete(ref, string(key))
+			case "bulk":
+				for _, bk := range bulk {
+					ref[string(bk.k)] = bk.v
+				}
+			case "bulkrm":
+				for _, bk := range bulk {
+					delete(ref, string(bk.k))
+				}
 			case "clear":
 				for k := range ref {
 					delete(ref, k)
@@ -330,8 +450,13 @@ func sumtreeOracle(run *simcore.Run, t sumtree.Tree, s storetypes.KVStore, ref r
 		fail("total", "TotalAccumulatedValue=%s, sorted map says %s", got, total)
 		return
 	}
-	// probe set: all alphabet keys (members and non-members)
-	for _, k := range sumtreeKeys {
+	// probe set: all alphabet keys (members and non-members), plus a rotating sample of the wide run's keys
+	// and their neighbours when the map holds any
+	probes := sumtreeKeys
+	if wide := sumtreeWideSample(ks, run.StepIdx); len(wide) > 0 {
+		probes = append(append([][]byte{}, sumtreeKeys...), wide...)
+	}
+	for _, k := range probes {
 		want := model[string(k)]
 		if want == nil {
 			want = new(big.Int)
@@ -442,6 +567,30 @@ func sumtreeOracle(run *simcore.Run, t sumtree.Tree, s storetypes.KVStore, ref r
 		}
 	}
 	sumtreeStructure(run, s, model, op, taint)
+}
+
+// sumtreeWideSample picks up to ~40 probe keys around the wide run's members: every n-th member (rotating with
+// the step), its successor key (mostly a non-member) and the first and last member.
+func sumtreeWideSample(ks []string, step int) [][]byte {
+	var w []string
+	for _, k := range ks {
+		if len(k) == 3 && k[0] == 'w' {
+			w = append(w, k)
+		}
+	}
+	if len(w) == 0 {
+		return nil
+	}
+	every := len(w)/20 + 1
+	var out [][]byte
+	for i := step % every; i < len(w); i += every {
+		k := []byte(w[i])
+		out = append(out, k)
+		n := (int(k[1])<<8 | int(k[2])) + 1
+		out = append(out, []byte{'w', byte(n >> 8), byte(n)})
+	}
+	out = append(out, []byte(w[0]), []byte(w[len(w)-1]))
+	return out
 }
 
 // sumtreeStructure reads the stored nodes directly: node keys are
